@@ -277,9 +277,21 @@ def check(case, ctx):
         except Reject as e:
             reject = str(e)
             idxs = []
+        # another concatenate step of the same process, created before this one and never run (flows are often defined
+        # first and run later); neither passes a target of its own - step instances share nothing
+        decoy = dataflows.concatenate({'zzz_decoy': [], 'zzz_other': ['q']})
         steps = [dataflows.concatenate(copy.deepcopy(case['fields']),
                                        *([copy.deepcopy(case['target'])] if case['target'] is not None else []),
                                        resources=copy.deepcopy(case['sel']))]
+        if case['target'] is None:
+            # ... and that other step RUNS (in a flow of its own) before this one does
+            from vlib.kernel import run_steps
+            zz = [{'name': 'zz%d' % i, 'fields': [{'name': 'zzz_decoy', 'type': 'string'}, {'name': 'q', 'type': 'string'}],
+                   'rows': [{'zzz_decoy': 'd', 'q': 'x'}]} for i in (1, 2)]
+            try:
+                run_steps([decoy], gen.descriptor_of(zz), gen.tables_of(zz))
+            except Exception as e:
+                raise unexpected(e, 'decoy concatenate')
         affected = idxs
     elif op == 'duplicate':
         src = case['source'] if case['source'] is not None else names[0]
@@ -402,6 +414,38 @@ def check(case, ctx):
             if sorted(map(repr, g)) == sorted(map(repr, e)):
                 kind = 'row-order'
             raise Violation('%s:%s' % (op, kind), {'resource': got_names[i], 'diff': d})
+    if op == 'append' and case['mode'] in ('sources', 'sources_flow', 'iterable', 'two_iterables', 'generator') and \
+            len(got_names) > len(names):
+        # a later step that selects the FIRST appended resource by the name it has now: exactly that resource goes, every
+        # other resource keeps its rows (the appended streams carry the names the descriptor gives them)
+        victim = got_names[len(names)]
+        steps2 = []
+        new = case['new']
+        mode = case['mode']
+        if mode == 'iterable':
+            steps2 = [copy.deepcopy(new[0]['rows'])]
+        elif mode == 'generator':
+            steps2 = [(r for r in copy.deepcopy(new[0]['rows']))]
+        elif mode == 'two_iterables':
+            steps2 = [copy.deepcopy(new[0]['rows']), (r for r in copy.deepcopy(new[1]['rows']))]
+        elif mode == 'sources_flow':
+            steps2 = [dataflows.sources(Flow(copy.deepcopy(new[0]['rows']), (r for r in copy.deepcopy(new[1]['rows']))))]
+        else:
+            steps2 = [dataflows.sources(copy.deepcopy(new[0]['rows']), (r for r in copy.deepcopy(new[1]['rows'])))]
+        try:
+            with quiet():
+                ds2 = Flow(*steps2, dataflows.delete_resource([victim])).datastream(feed(desc, tables, sequential=case.get('seq', False)))
+                d2, r2, _ = materialise(ds2)
+        except Exception as e:
+            raise unexpected(e, 'append + delete_resource of the first appended resource')
+        exp_n2 = [n_ for n_ in got_names if n_ != victim]
+        exp_r2 = [t for n_, t in zip(got_names, out_rows) if n_ != victim]
+        if [r['name'] for r in d2['resources']] != exp_n2 or len(r2) != len(exp_r2):
+            raise Violation('append:then-delete-by-name:resources', {'got': [r['name'] for r in d2['resources']], 'expected': exp_n2})
+        for g, e, n_ in zip(r2, exp_r2, exp_n2):
+            if not rows_eq(g, e):
+                raise Violation('append:then-delete-by-name:rows', {'resource': n_, 'diff': first_diff(g, e)})
+        classes.append('append-then-select-by-name')
     # descriptors of untouched resources are identical; duplicate's copy is a renamed deep copy
     in_by_name = {r['name']: r for r in passthrough_desc(desc)['resources']}
     for i, r in enumerate(out_desc['resources']):
